@@ -2,7 +2,7 @@ package main
 
 // C03 / C15 — the handler chain and Recovery, against a REAL *flamego.Flame.
 //
-// Session:  NEW chain <dev> <nmw> <ngrp> <nrt> <action>   then `H …` lines (chain order) and `REQ` lines
+// Session:  NEW chain <dev> <nmw> <ngrp> <nrt> <action> [GET|HEAD|POST]   then `H …` lines (chain order) and `REQ` lines
 // (format: lean/Flamego/Driver/Chain.lean).  Each REQ serves one request on the same instance and prints
 //     <enter/exit/abort events> | <what the client's http.ResponseWriter received> | esc=<recovered panic kind>
 
@@ -37,7 +37,7 @@ type chainAct struct {
 type chainHandler struct {
 	kind byte // p r u
 	acts []chainAct
-	ret  byte // '-' 'N' 'W'
+	ret  byte // '-' 'N' 'W' 'B'
 	code int
 	blen int
 }
@@ -87,6 +87,8 @@ func parseChainHandler(l []string) (chainHandler, bool) {
 	case l[3] == "-":
 	case l[3] == "N":
 		h.ret = 'N'
+	case strings.HasPrefix(l[3], "B"):
+		h.ret, h.blen = 'B', atoi(l[3][1:])
 	case strings.HasPrefix(l[3], "W"):
 		p := strings.Split(l[3][1:], ":")
 		if len(p) != 2 {
@@ -169,6 +171,8 @@ func (h *chainHandler) handler(i int, cur **chainRun) flamego.Handler {
 	switch h.ret {
 	case 'N':
 		return func(c flamego.Context) string { h.interpret(i, cur, c); return "" }
+	case 'B': // a body without a status: the return handler only calls Write (implicit 200)
+		return func(c flamego.Context) string { h.interpret(i, cur, c); return strings.Repeat("x", h.blen) }
 	case 'W':
 		return func(c flamego.Context) (int, string) {
 			h.interpret(i, cur, c)
@@ -246,6 +250,12 @@ func execChain(args []string, lines [][]string) []string {
 	}
 	dev := args[0] == "1"
 	nmw, ngrp, nrt, hasAction := atoi(args[1]), atoi(args[2]), atoi(args[3]), args[4] == "1"
+	method := http.MethodGet
+	for _, a := range args[5:] {
+		if a == http.MethodHead || a == http.MethodPost || a == http.MethodGet {
+			method = a
+		}
+	}
 	want := nmw + ngrp + nrt
 	if hasAction {
 		want++
@@ -282,14 +292,14 @@ func execChain(args []string, lines [][]string) []string {
 		rt := fns[nmw+ngrp : nmw+ngrp+nrt]
 		switch {
 		case ngrp == 0:
-			f.Get("/r", rt...)
+			f.Route(method, "/r", rt)
 		case ngrp == 1:
-			f.Group("/a", func() { f.Get("/r", rt...) }, grp...)
+			f.Group("/a", func() { f.Route(method, "/r", rt) }, grp...)
 			path = "/a/r"
 		default: // two nested groups, the outer one holding the first half
 			k := (ngrp + 1) / 2
 			f.Group("/a", func() {
-				f.Group("/b", func() { f.Get("/r", rt...) }, grp[k:]...)
+				f.Group("/b", func() { f.Route(method, "/r", rt) }, grp[k:]...)
 			}, grp[:k]...)
 			path = "/a/b/r"
 		}
@@ -318,7 +328,7 @@ func execChain(args []string, lines [][]string) []string {
 				build()
 				setEnv(dev)
 			}
-			outs = append(outs, serveChain(f, path, cur))
+			outs = append(outs, serveChain(f, method, path, cur))
 		default:
 			outs = append(outs, "bad-op")
 		}
@@ -326,14 +336,14 @@ func execChain(args []string, lines [][]string) []string {
 	return outs
 }
 
-// serveChain serves one GET on the instance and renders the observation line.
-func serveChain(f *flamego.Flame, path string, cur **chainRun) string {
+// serveChain serves one request with the session's method on the instance and renders the observation line.
+func serveChain(f *flamego.Flame, method, path string, cur **chainRun) string {
 	ctx, cancel := gocontext.WithCancel(gocontext.Background())
 	defer cancel()
 	run := &chainRun{cancel: cancel}
 	*cur = run
 	spy := &chainSpy{ResponseRecorder: httptest.NewRecorder()}
-	req := httptest.NewRequest(http.MethodGet, path, nil).WithContext(ctx)
+	req := httptest.NewRequest(method, path, nil).WithContext(ctx)
 	var esc interface{}
 	func() {
 		defer func() { esc = recover() }()
@@ -366,7 +376,11 @@ func chainLayouts(d int) []chainLayout {
 }
 
 func emitChain(emit Emit, dev int, lay chainLayout, hs []string, nreq int) {
-	emit("NEW chain %d %d %d %d %d", dev, lay.nmw, lay.ngrp, lay.nrt, lay.act)
+	emitChainM(emit, dev, lay, hs, nreq, "GET")
+}
+
+func emitChainM(emit Emit, dev int, lay chainLayout, hs []string, nreq int, method string) {
+	emit("NEW chain %d %d %d %d %d %s", dev, lay.nmw, lay.ngrp, lay.nrt, lay.act, method)
 	for _, h := range hs {
 		emit("H %s", h)
 	}
@@ -378,8 +392,15 @@ func emitChain(emit Emit, dev int, lay chainLayout, hs []string, nreq int) {
 // the small-scope alphabets: one letter = one whole handler
 var chainPoolC03 = []string{
 	"p - -", "p n -", "p n,n -", "p w201 -", "p n,b2 -", "p c -", "p c,n -", "p w200,n -",
-	"p - W202:1", "p n N", "p pS -", "r", "u",
+	"p - W202:1", "p n N", "p pS -", "r", "u", "p b2 -", "p - B3",
 }
+
+// handlers that matter for HEAD: answers given only through Write / a returned body (no explicit status)
+var chainPoolHead = []string{
+	"p b2 -", "p - B3", "p n,b2 -", "p - -", "p n -", "p w201 -", "r", "p pS -",
+}
+
+var chainMethodCycle = []string{"GET", "HEAD", "GET", "POST", "HEAD"}
 
 var chainPoolC15 = []string{
 	"p - -", "p n -", "p n,n -", "p w201,n -", "p n,b2 -", "p pS -", "p b1,pR -", "p n,pE -",
@@ -428,6 +449,8 @@ func randChainProg(r *rand.Rand, hooks bool, panicky bool) string {
 		ret = "N"
 	case k <= 2:
 		ret = fmt.Sprintf("W%d:%d", chainCodes[r.Intn(len(chainCodes))], r.Intn(3))
+	case k == 3:
+		ret = fmt.Sprintf("B%d", r.Intn(4))
 	}
 	return fmt.Sprintf("p %s %s", a, ret)
 }
@@ -442,6 +465,11 @@ func genChain(r *rand.Rand, tier string, emit Emit, c15 bool) {
 		ls := chainLayouts(d)
 		count++
 		return count % 2, ls[(count/2)%len(ls)]
+	}
+	mcount := 0
+	nextMethod := func() string {
+		mcount++
+		return chainMethodCycle[mcount%len(chainMethodCycle)]
 	}
 
 	// fixed sessions: the recorded replays (F10, F15, and the double-Next escape) always run
@@ -459,7 +487,13 @@ func genChain(r *rand.Rand, tier string, emit Emit, c15 bool) {
 		rec = func(seq []string) {
 			if len(seq) > 0 {
 				dev, lay := next(len(seq))
-				emitChain(emit, dev, lay, seq, 1)
+				if len(seq) <= 2 { // every method for the smallest stacks, one (cycling) for the others
+					for _, m := range []string{"GET", "HEAD", "POST"} {
+						emitChainM(emit, dev, lay, seq, 1, m)
+					}
+				} else {
+					emitChainM(emit, dev, lay, seq, 1, nextMethod())
+				}
 			}
 			if len(seq) == depth {
 				return
@@ -485,7 +519,7 @@ func genChain(r *rand.Rand, tier string, emit Emit, c15 bool) {
 						}
 					}
 					dev, lay := next(d)
-					emitChain(emit, dev, lay, seq, 2)
+					emitChainM(emit, dev, lay, seq, 2, nextMethod())
 					// odometer over the non-recovery slots
 					i := d - 1
 					for ; i >= 0; i-- {
@@ -504,6 +538,24 @@ func genChain(r *rand.Rand, tier string, emit Emit, c15 bool) {
 				}
 			}
 		}
+	}
+
+	// HEAD, exhaustive to depth 3 over the handlers that answer without an explicit status
+	{
+		var rec func(seq []string)
+		rec = func(seq []string) {
+			if len(seq) > 0 {
+				dev, lay := next(len(seq))
+				emitChainM(emit, dev, lay, seq, 1, "HEAD")
+			}
+			if len(seq) == 3 {
+				return
+			}
+			for _, a := range chainPoolHead {
+				rec(append(seq[:len(seq):len(seq)], a))
+			}
+		}
+		rec(nil)
 	}
 
 	// random deeper stacks
@@ -530,7 +582,14 @@ func genChain(r *rand.Rand, tier string, emit Emit, c15 bool) {
 			}
 		}
 		ls := chainLayouts(d)
-		emitChain(emit, r.Intn(2), ls[r.Intn(len(ls))], seq, 1+r.Intn(3))
+		method := "GET"
+		switch k := r.Intn(10); {
+		case k >= 8:
+			method = "POST"
+		case k >= 5:
+			method = "HEAD"
+		}
+		emitChainM(emit, r.Intn(2), ls[r.Intn(len(ls))], seq, 1+r.Intn(3), method)
 	}
 
 	// malformed stream: the executor and the driver must agree on rejecting these too
